@@ -86,7 +86,7 @@ func genAwk(r *rand.Rand, id string, tier string) string {
 		switch r.Intn(17) {
 		case 16:
 			// an awkward Operator (nil, typed nil pointers with value / pointer receivers, empty texts) as comparand
-			ops = append(ops, "q condop O"+[]string{"z", "y", "-", "c0", "c200", "u2:" + hx("") + ":" + hx("ctx"), "v3:" + hx("") + ":" + hx("list")}[r.Intn(7)])
+			ops = append(ops, "q condop O"+[]string{"w", "z", "y", "-", "c0", "c200", "u2:" + hx("") + ":" + hx("ctx"), "v3:" + hx("") + ":" + hx("list")}[r.Intn(8)])
 		case 0, 1, 2:
 			ops = append(ops, "push "+genAwkVal(r).String()+" "+genAwkVal(r).String())
 		case 3:
